@@ -452,8 +452,11 @@ fn receivers_zoned(acc: &mut Acc) {
             }
         }
         call!(acc, "DateTime::to_rfc3339", format!("[{}].to_rfc3339()", d()), Some(dt.to_rfc3339()).map(|_| ()));
-        call!(acc, "Serialize for DateTime", format!("serde_json::to_string(&[{}])", d()), serde_json::to_string(&dt).ok().map(|_| ()));
-        call!(acc, "Serialize for DateTime", format!("bincode::serialize(&[{}])", d()), bincode::serialize(&dt).ok().map(|_| ()));
+        #[cfg(feature = "serde")]
+        {
+            call!(acc, "Serialize for DateTime", format!("serde_json::to_string(&[{}])", d()), serde_json::to_string(&dt).ok().map(|_| ()));
+            call!(acc, "Serialize for DateTime", format!("bincode::serialize(&[{}])", d()), bincode::serialize(&dt).ok().map(|_| ()));
+        }
         call!(acc, "DateTime:Display/Debug", format!("Display / Debug of [{}]", d()), Some((dt.to_string(), format!("{:?}", dt))).map(|_| ()));
         let mut s = String::new();
         call!(acc, "DateTime::format", format!("[{}].format(\"%Y-%m-%dT%H:%M:%S%.f%:z %s %c %+ %j %U %G-W%V\")", d()), Some(write!(s, "{}", dt.format("%Y-%m-%dT%H:%M:%S%.f%:z %s %c %+ %j %U %G-W%V"))).map(|_| ()));
